@@ -15,7 +15,11 @@ pub fn size(sc: &Scenario) -> serde_json::Value {
 }
 
 fn fails_same(prop: &str, sc: &Scenario, rule: &str) -> bool {
-    let j = run::run(sc, schema::recvs());
+    // every candidate on a thread of its own: what an earlier candidate left behind on the thread
+    // (a caught panic, a failed parse) must not make a later, smaller one look like it fails alone
+    let j = std::thread::scope(|s| {
+        std::thread::Builder::new().stack_size(64 << 20).spawn_scoped(s, || run::run(sc, schema::recvs())).expect("spawn").join().expect("candidate thread panicked outside a simulated run")
+    });
     if j.harness_error.is_some() {
         return false;
     }
